@@ -348,6 +348,22 @@ class Interp:
             out = J.val(out, v, ())
             for p, a, b in J.phis:
                 S.define(p, D.join(S.ivof(a), S.ivof(b)))
+            # bounds both alternatives share (x <= t + c for a symbol t one of them is related to) hold for the merged value
+            for p, a, b in J.phis[:8]:
+                if self.st.range(p) == (0, 1):
+                    continue
+                cands = set()
+                for f in S.facts:
+                    if a in f.t or b in f.t:
+                        cands.update(x for x in f.t if x not in (a, b, p) and not isinstance(x, tuple))
+                for t in sorted(cands)[:6]:
+                    for sign in (1, -1):
+                        for c in (1, 0, -1):
+                            ga = S.term(a).sub(S.term(t)).scale(sign).addc(c)
+                            gb = S.term(b).sub(S.term(t)).scale(sign).addc(c)
+                            if S.entails(ga, False) and S.entails(gb, False):
+                                S.add_fact(Lin({p: 1}).sub(S.term(t)).scale(sign).addc(c))
+                                break
         return out
 
     def freshen(self, v, S, key, efacts=(), _path=(), elem_of=None, prov=None, off=None):
